@@ -1,15 +1,35 @@
 -------------------------- MODULE DirectSamplingGen --------------------------
 (* Leg R of C03: configuration cases for the driver.  TLC enumerates deg_step (all    *)
-(* admissible divisors of 360), the sample class and the alpha class; the driver       *)
-(* supplies the seeded data for the class and runs the real DirectSamplingContour.     *)
+(* admissible divisors of 360), the sample class, the alpha class and the types of the *)
+(* arguments / the container of the sample; the driver supplies the seeded data for    *)
+(* the class and runs the real DirectSamplingContour.                                  *)
 EXTENDS Integers, TLC, Json
 CONSTANTS Steps
 SampleClasses == {"model", "model_default_n", "stub_default_n", "gauss", "ties", "heavy", "ring",
                   "int64", "int32", "float32",          \* supplied sample that is not float64
                   "pareto02", "t025", "outlier"}        \* very heavy tails / one point at 1e15..1e17
 AlphaClasses == {"tiny", "small", "mid", "large"}
+(* The TYPE of the arguments is an input class as well (a NumPy scalar is not a Python     *)
+(* scalar: 1 - np.float32(alpha) and 100 / np.float32(alpha) are single-precision           *)
+(* operations), and so is the container of a supplied sample.                               *)
+AlphaTypes == {"float", "float64", "float32"}        \* Python float, np.float64, np.float32
+StepTypes == {"int", "float", "float32"}             \* Python int, Python float, np.float32
+Containers == {"ndarray", "dataframe", "list"}       \* ndarray, pandas DataFrame, list of rows
+Plain == [atype |-> "float", stype |-> "int", cont |-> "ndarray"]
+(* base cases: every deg_step x sample class x alpha class with plain Python arguments       *)
+Base == {[deg_step |-> s, cls |-> c, alpha |-> a, atype |-> Plain.atype, stype |-> Plain.stype, cont |-> Plain.cont] :
+            s \in Steps, c \in SampleClasses, a \in AlphaClasses}
+(* typed cases: every combination of argument types and containers that is not plain, for    *)
+(* supplied samples of four classes and (no sample supplied: no container) for the two       *)
+(* default-n classes.  deg_step = 0: the driver rotates through Steps.                       *)
+TypedSupplied == {"model", "gauss", "ties", "heavy"}
+TypedDefault == {"model_default_n", "stub_default_n"}
+Typed == {t \in [deg_step : {0}, cls : TypedSupplied \cup TypedDefault, alpha : AlphaClasses,
+                  atype : AlphaTypes, stype : StepTypes, cont : Containers] :
+            /\ [atype |-> t.atype, stype |-> t.stype, cont |-> t.cont] # Plain
+            /\ (t.cls \in TypedDefault => t.cont = "ndarray")}
 VARIABLE g
-Init == g \in [deg_step : Steps, cls : SampleClasses, alpha : AlphaClasses]
+Init == g \in Base \cup Typed
 Next == UNCHANGED g
 Spec == Init /\ [][Next]_g
 Emit == PrintT(<<"BEH", ToJson(g)>>)
